@@ -1596,6 +1596,44 @@ int vnaproperty_vset(vnaproperty_t **rootptr, const char *format, va_list ap)
     vnaproperty_t *value = NULL;
     int rv = -1;
 
+    /*
+     * Validate the whole request on a copy of the arguments before
+     * descending: parse_and_descend with set creates and replaces
+     * nodes along the path, which must not happen for a call that
+     * is going to be refused.
+     */
+    {
+	parser_t check;
+	va_list ap_copy;
+	bool valid = true;
+
+	va_copy(ap_copy, ap);
+	if (parse(&check, format, ap_copy) == -1) {
+	    va_end(ap_copy);
+	    return -1;
+	}
+	va_end(ap_copy);
+	switch (check.prs_tail->ex_type) {
+	case E_MAP_ELEMENT:
+	case E_LIST_ELEMENT:
+	case E_LIST_INSERT:
+	case E_LIST_APPEND:
+	case E_DOT:
+	    break;
+	default:
+	    valid = false;
+	    break;
+	}
+	if (check.prs_scn.scn_token != T_ASSIGN &&
+		check.prs_scn.scn_token != T_HASH) {
+	    valid = false;
+	}
+	parser_free(&check);
+	if (!valid) {
+	    errno = EINVAL;
+	    return -1;
+	}
+    }
     if ((anchor = parse_and_descend(&parser, rootptr, /*set*/true,
 		    format, ap)) == NULL) {
 	return -1;
